@@ -437,6 +437,28 @@ func (cs *ContractSet) loadFile(path string, pkgPath string) error {
 			}
 			cl.Loop = n
 			cur.Clauses = append(cur.Clauses, cl)
+		case "after":
+			// after call X#n: assume [name:] e  - an ASSUMPTION about the state right after the n-th
+			// call of X made directly by this function (listed in the evidence as assumed)
+			i := strings.Index(ln, ": assume ")
+			where := ""
+			if i >= 0 {
+				where = strings.TrimSpace(ln[len("after"):i])
+			}
+			if i < 0 || !strings.HasPrefix(where, "call ") {
+				return fmt.Errorf("%s: bad after clause %q (after call X#n: assume [name:] e)", path, ln)
+			}
+			cl, err := mk("aftercall", strings.TrimSpace(ln[i+len(": assume "):]))
+			if err != nil {
+				return err
+			}
+			w := strings.TrimSpace(where[5:])
+			if j := strings.LastIndex(w, "#"); j >= 0 {
+				fmt.Sscanf(w[j+1:], "%d", &cl.CallN)
+				w = w[:j]
+			}
+			cl.Callee = w
+			cur.Clauses = append(cur.Clauses, cl)
 		case "at":
 			// at call X#n: assert [name:] e   |  at return: assert [name:] e
 			i := strings.Index(ln, ": assert ")
